@@ -932,6 +932,12 @@ impl Value
         }
         let secs = elapsed.as_secs() as u32;
         let response = decrement_ttl(orig_qname, &self.response, secs);
+        if self.response.is_ok() && response.is_err() {
+            // The message cannot be rebuilt, e.g., because it has record
+            // data that does not parse. That is not an error the upstream
+            // returned, so treat the entry as if it were not there.
+            return None;
+        }
         Some(response)
     }
 }
